@@ -177,14 +177,14 @@ toklistPrint(FILE *fout, TokenList tl)
 
 #define KeyNope		(-1)
 
-static short	keyIx[CHAR_MAX+1];
+static short	keyIx[UCHAR_MAX+1];
 
 void
 keyInit(void)
 {
 	int	i, ch, lastch;
 
-	for (ch = 0; ch < CHAR_MAX+1; ch++)
+	for (ch = 0; ch < UCHAR_MAX+1; ch++)
 		keyIx[ch] = KeyNope;
 
 	lastch = 0;
@@ -228,7 +228,7 @@ keyTag(String str)
 	 * If we have something, do any tokens start with the
 	 * same character?
 	 */
-	if (!str || (ch = str[0]) == 0 || keyIx[ch] == KeyNope)
+	if (!str || (ch = (unsigned char) str[0]) == 0 || keyIx[ch] == KeyNope)
 		return TK_LIMIT;
 
 
@@ -273,7 +273,7 @@ keyLongest(String str)
 	 * If we have something, do any tokens start with the
 	 * same character?
 	 */
-	if (!str || (ch = str[0]) == 0 || keyIx[ch] == KeyNope)
+	if (!str || (ch = (unsigned char) str[0]) == 0 || keyIx[ch] == KeyNope)
 		return TK_LIMIT;
 
 
